@@ -101,7 +101,9 @@ func VC17_roundtrip() {
 		case 3: // bucket list over several lines
 			a, b := c17val(1), c17val(1)
 			r.Counter = "p:{" + a + "," + b + "}"
-			text += "counter: p:{\n  " + a + ",\n  " + b + "\n}\n"
+			// the opening line may end in blanks or a comment
+			open := []string{"", " ", "\t", "  # note"}[vrt.Choose(4)]
+			text += "counter: p:{" + open + "\n  " + a + ",\n  " + b + "\n}\n"
 		}
 		if vrt.Bool() {
 			d := int(vrt.U8() % 100)
